@@ -104,7 +104,11 @@ def fixedGraphs : List Graph := [
   -- a fan: one source with three targets (aggregates over several rows), sources that also satisfy the target's kind
   ⟨[node 0 ["NodeKind1"] [("name", .str "x"), ("a", jInt 1)], node 1 ["NodeKind2"] [("name", .str "y"), ("a", jInt 2)],
     node 2 ["NodeKind1", "NodeKind2"] [("name", .str "x"), ("a", jInt 3)], node 3 [] [("a", jInt 4)]],
-   [edge 0 0 1 "EdgeKind1", edge 1 0 2 "EdgeKind1", edge 2 0 3 "EdgeKind1", edge 3 2 1 "EdgeKind1"]⟩
+   [edge 0 0 1 "EdgeKind1", edge 1 0 2 "EdgeKind1", edge 2 0 3 "EdgeKind1", edge 3 2 1 "EdgeKind1"]⟩,
+  -- strings with the characters LIKE treats specially (backslash, %, _) and a quote, next to look-alikes without them
+  ⟨[node 0 ["NodeKind1"] [("name", .str "C:\\Users\\bob")], node 1 ["NodeKind1"] [("name", .str "C:Users\\bob")], node 2 ["NodeKind2"] [("name", .str "a%b")],
+    node 3 ["NodeKind2"] [("name", .str "axb")], node 4 [] [("name", .str "a_b")], node 5 [] [("name", .str "it's")]],
+   [edge 0 0 1 "EdgeKind1" [("name", .str "a\\b")]]⟩
 ]
 
 /-- node templates of the exhaustive family: distinct kinds and property shapes (string / number / missing / mixed) -/
